@@ -4,7 +4,7 @@ from __future__ import annotations
 
 import importlib
 
-CONTRACT_MODULES = ["contracts.curves", "contracts.groups", "contracts.closed"]
+CONTRACT_MODULES = ["contracts.curves", "contracts.groups", "contracts.closed", "contracts.fields", "contracts.ints"]
 
 _COMMON_TRUST = [
     "CPython semantics as modelled in DESIGN.md section 3 (mathematical ints, bytes as octet sequences, static name resolution, no monkey-patching)",
@@ -31,6 +31,21 @@ PROPS = {
         text="add/double/neg/eq/is_on_curve/is_inf of the two reference modules (affine, None = infinity) and of the two optimized modules (projective) are proved on every path to compute the affine group law for every field of characteristic > 3 (so for base curve, twist and E(F_p^12) at once); multiply in all four modules is proved by induction to be the n-fold sum for every n >= 0; the abelian-group axioms of the spec law are the Lean lemma L-GROUP; generators, coefficients, moduli, orders are compared with pinned standard literals and their family derivations (eval).",
         note="Assumes primality of the standard moduli/orders (A-PRIME) and that the field classes are fields (C08). The twist-embedding clause is decided by the closed facts and the twist contract where built; see evidence.notes.",
         design_ref="DESIGN.md section 8 C07"),
+    "C08": dict(level="proof", trusted=_COMMON_TRUST + [
+        "ModInt reading: integers in the field classes are interpreted through the ring homomorphism Z -> Z/p with a tracked 'reduced' flag (DESIGN section 4 L1)"],
+        assumptions=["class invariant: field_modulus is prime (A-PRIME for the four real curves)",
+                     "class invariant: the modulus polynomial is irreducible and its integer coefficients are 0 or not multiples of p",
+                     "FQ12.inv (both files) is a BOUNDED stand-in, not proved: run-time monitor on small and real fields",
+                     "FQ.__eq__/__lt__ with an int operand compare the canonical representative with the integer as given (recorded reading, DESIGN section 8 C08)"],
+        text="Every operator of FQ and FQP/FQ2/FQ12 in both files is executed symbolically from the real source with a SYMBOLIC prime and SYMBOLIC modulus coefficients (d = 2 and d = 12) and proved to return a valid (reduced) object of type(self) whose abstract value is the ring operation on the abstract values, with TypeError exactly for rejected operand kinds; multiplication's reduction loop is proved by a loop invariant per iteration under the relation M(W) = 0, ** by a loop invariant over an abstract commutative ring for every n >= 0, FQ2.inv by complete path enumeration, prime_field_inv by a z3 loop invariant with congruence witnesses. Field axioms then follow from the ring being Z/p resp. (Z/p)[W]/(M) (Lean L-ZMOD).",
+        note="FQ12.inv is bounded only (listed under bounded_standins, never in discharged). Primality/irreducibility are class invariants (assumed). Comparison operators with int operands follow the recorded reading.",
+        design_ref="DESIGN.md section 8 C08"),
+    "C14": dict(level="proof", trusted=_COMMON_TRUST, assumptions=[
+        "as C08 (same units): primality, irreducibility, FQ12.inv bounded on both sides",
+        "operand kinds accepted by only one of the two files (reference FQP * FQ) are outside 'the same expression evaluated in both'"],
+        text="Reference and optimized classes are verified against the same abstract contract by the same unit code (C08); the simulation lemma (R-preservation, canonical representatives equal) then gives equal values for every expression tree; sgn0 of the optimized classes is proved equal to the RFC 9380 section 4.1 definition for all elements (z3).",
+        note="Same assumptions as C08; FQ12.inv compared by the bounded monitor only.",
+        design_ref="DESIGN.md section 8 C14"),
     "C17": dict(level="proof", trusted=_COMMON_TRUST, assumptions=[
         "A-ORDER: #E(F_p) = h1 r (forced by Hasse + r prime, eval) and #E'(F_p2) = h2 r (assumed; Hasse-interval cross-check by eval)",
         "A-STRUCT-G1: the cofactor part of E(F_p) has exponent dividing 1 - x (RFC 9380 section 8.8.1); needed only for 'clear_cofactor_G1 lands in the subgroup'",
